@@ -1,13 +1,16 @@
 package nharness
 
 import (
+	"bufio"
 	"bytes"
 	"compress/gzip"
 	"context"
 	"fmt"
 	"io"
 	"os"
+	"os/exec"
 	"regexp"
+	"strconv"
 	"strings"
 	"sync"
 	"time"
@@ -179,6 +182,90 @@ func c01nRun(c *core.Ctx) {
 		}
 	}
 	c.Sample(c01nCase{Content: "a\n\xffa", M: 8})
+	c01nSeparateServer(c)
+}
+
+// ServeMain runs a dtail server with its own MaxLineLength in this process until standard input ends; it prints
+// "ADDR <host:port>" once it listens.  keyLine is the authorized-keys line of user alice.
+func ServeMain(maxLineLength int, keyLine string) int {
+	Setup()
+	WriteAuthorizedKeys("alice", keyLine+"\n")
+	config.Server.MaxLineLength = maxLineLength
+	ts := StartServer(10)
+	fmt.Printf("ADDR %s\n", ts.Addr)
+	io.Copy(io.Discard, os.Stdin)
+	ts.Stop()
+	return 0
+}
+
+// c01nSeparateServer: the server runs in a process of its own, configured with a MaxLineLength that differs from
+// the one in the client's configuration file (each side has its own dtail.json in a real deployment); the
+// reference splits lines at the SERVER's limit.
+func c01nSeparateServer(c *core.Ctx) {
+	self, err := os.Executable()
+	if err != nil {
+		c.Res.HarnessErr = "os.Executable: " + err.Error()
+		return
+	}
+	dir := core.Scratch() + "/c01n"
+	for _, pair := range [][2]int{{100000, 8}, {100000, 64}, {64, 100000}, {8, 1024 * 1024}} {
+		ms, mc := pair[0], pair[1]
+		if c.Expired() {
+			return
+		}
+		cmd := exec.Command(self, "serve", strconv.Itoa(ms), Keys[0].Line)
+		cmd.Env = append(os.Environ(), "VERIF_NATIVE_LOGGER=none")
+		stdin, _ := cmd.StdinPipe()
+		stdout, _ := cmd.StdoutPipe()
+		if err := cmd.Start(); err != nil {
+			c.Res.HarnessErr = "starting the server process: " + err.Error()
+			return
+		}
+		stop := func() {
+			stdin.Close()
+			done := make(chan struct{})
+			go func() { cmd.Wait(); close(done) }()
+			select {
+			case <-done:
+			case <-time.After(10 * time.Second):
+				cmd.Process.Kill()
+				<-done
+			}
+		}
+		rd := bufio.NewReader(stdout)
+		line, err := rd.ReadString('\n')
+		if err != nil || !strings.HasPrefix(line, "ADDR ") {
+			stop()
+			c.Res.HarnessErr = fmt.Sprintf("the server process did not report its address: %q %v", line, err)
+			return
+		}
+		go io.Copy(io.Discard, rd)
+		addr := strings.TrimSpace(strings.TrimPrefix(line, "ADDR "))
+		var contents []string
+		for _, l := range []int{mc - 1, mc, mc + 1, mc + 4095, mc + 4096, mc + 4097, 2*mc + 8200, ms - 1, ms, ms + 1, 2*ms + 1} {
+			if l > 0 && l <= 300000 {
+				contents = append(contents, "first\n"+strings.Repeat("L", l)+"\nlast\n", strings.Repeat("M", l))
+			}
+		}
+		config.Server.MaxLineLength = mc // what the client's configuration says
+		for i, content := range contents {
+			name := fmt.Sprintf("%s/sep-%d-%d-%d.txt", dir, ms, mc, i)
+			os.WriteFile(name, []byte(content), 0o644)
+			got, status := runDcat(addr, name)
+			os.Remove(name)
+			want := string(c01nSplit([]byte(content), ms))
+			c.Count(fmt.Sprintf("separate-server|%d|%d|%d", ms, mc, i))
+			if got != want || status != 0 {
+				i := 0
+				for i < len(got) && i < len(want) && got[i] == want[i] {
+					i++
+				}
+				c.Violation("output-differs-when-client-and-server-configuration-differ", fmt.Sprintf("server process with MaxLineLength %d, client configured with %d, file of %d bytes with a line of %d bytes: dcat --plain printed %d bytes (status %d), want %d; first difference at offset %d",
+					ms, mc, len(content), len(content)-11, len(got), status, len(want), i), c01nCase{Desc: fmt.Sprintf("separate server process ms=%d mc=%d len=%d", ms, mc, len(content)), M: ms})
+			}
+		}
+		stop()
+	}
 }
 
 func init() {
@@ -187,7 +274,7 @@ func init() {
 		ReportAs: "C01",
 		Level:    "exploration",
 		Rule: "PART 2 (native, real SSH): file contents = all sequences of <=3 (quick) / <=4 (thorough) tokens over 12 byte tokens, files with two lines longer than the 32 KiB transport buffer, a gzip file; each is served by a real in-process dtail server and fetched by " +
-			"the real dcat client code over x/crypto/ssh on loopback (plain mode); oracle as in part 1",
+			"the real dcat client code over x/crypto/ssh on loopback (plain mode); oracle as in part 1; plus the server in a PROCESS OF ITS OWN with a MaxLineLength different from the client's configuration (4 pairs), lines around both limits and around the client's limit + 4096",
 		Assumptions: []string{"part 2 runs free (one schedule per input); it binds the serverless results of part 1 to the SSH wiring (server.go, serverconnection.go)"},
 		Serial:      true,
 		QuickBudget: 150 * time.Second,
